@@ -70,6 +70,10 @@ var atColKinds = map[string]colKind{
 		func(r *vc.Rand) interface{} {
 			return []string{"alice", "bob", "", "it's", "a b", "名前", "x\\y", "100", "{\"k\":1}", "Zed-9", "q?", "50%"}[r.Intn(12)]
 		}},
+	"varchar_num": {"varchar_num", func(n string) mm.Column { return mm.Column{Name: n, T: mm.TChar, Len: 64, ColType: "varchar(64)"} },
+		func(r *vc.Rand) interface{} {
+			return []string{"007", "7", "1e3", "1000", "1000.0", "4000123412349999001", "4000123412349999002", "0x10", "-0", "0", " 12", "12"}[r.Intn(12)]
+		}},
 	"varchar_b64": {"varchar_b64", func(n string) mm.Column { return mm.Column{Name: n, T: mm.TChar, Len: 64, ColType: "varchar(64)"} },
 		func(r *vc.Rand) interface{} { return []string{"test", "AQID", "abcd", "YWJj", "Zm9v"}[r.Intn(5)] }},
 	"text": {"text", func(n string) mm.Column { return mm.Column{Name: n, T: mm.TChar, DataType: "text", ColType: "text"} },
